@@ -602,3 +602,199 @@ func boolReturnTable(f *ssa.Function, atoms []atomPred, resIdx int) (map[int]int
 	}
 	return out, ok
 }
+
+// boolValueAt: for every truth assignment of the atoms, the set of values (bit 1: false, bit 2: true) the boolean
+// SSA value v can have when control reaches `site`. The walker carries the operand every boolean phi received on
+// the path (so a condition stored in a variable, `ok := a && b`, is evaluated on what it was computed from);
+// conditions that are not functions of the atoms are explored both ways.
+func boolValueAt(f *ssa.Function, site ssa.Instruction, v ssa.Value, atoms []atomPred) (map[int]int, bool) {
+	out := map[int]int{}
+	okAll := true
+	n := len(atoms)
+	for a := 0; a < 1<<n; a++ {
+		val := func(x ssa.Value) tri {
+			for i, at := range atoms {
+				if is, same := at(x); is {
+					t := a&(1<<i) != 0
+					return triOf(t == same)
+				}
+			}
+			return triUnknown
+		}
+		type env map[*ssa.Phi]ssa.Value
+		var eval func(x ssa.Value, e env, d int) tri
+		eval = func(x ssa.Value, e env, d int) tri {
+			if d > 14 {
+				return triUnknown
+			}
+			if t := val(x); t != triUnknown {
+				return t
+			}
+			switch y := x.(type) {
+			case *ssa.Const:
+				if b, isB := constBool(y); isB {
+					return triOf(b)
+				}
+			case *ssa.UnOp:
+				if y.Op == token.NOT {
+					switch eval(y.X, e, d+1) {
+					case triTrue:
+						return triFalse
+					case triFalse:
+						return triTrue
+					}
+				}
+				if y.Op == token.MUL {
+					if s := loadedValue(y); s != nil {
+						return eval(s, e, d+1)
+					}
+				}
+			case *ssa.Phi:
+				if op, ok := e[y]; ok {
+					return eval(op, e, d+1)
+				}
+			case *ssa.ChangeType:
+				return eval(y.X, e, d+1)
+			}
+			return triUnknown
+		}
+		budget := 40000
+		seen := map[string]bool{}
+		var walk func(b, pred *ssa.BasicBlock, e env)
+		walk = func(b, pred *ssa.BasicBlock, e env) {
+			if budget <= 0 {
+				okAll = false
+				return
+			}
+			budget--
+			// phis of b take the operand of the edge we came over
+			ne := e
+			if pred != nil {
+				idx := -1
+				for i, p := range b.Preds {
+					if p == pred {
+						idx = i
+					}
+				}
+				for _, in := range b.Instrs {
+					p, isPhi := in.(*ssa.Phi)
+					if !isPhi {
+						break
+					}
+					if idx >= 0 && idx < len(p.Edges) {
+						if &ne == &e || len(ne) == len(e) {
+							c := env{}
+							for k, x := range e {
+								c[k] = x
+							}
+							ne = c
+						}
+						op := p.Edges[idx]
+						// resolve chains at binding time (the operand's own phi has the value it had then)
+						if q, isQ := op.(*ssa.Phi); isQ {
+							if r, ok := e[q]; ok {
+								op = r
+							}
+						}
+						ne[p] = op
+					}
+				}
+			}
+			// state key: block + the truth of every bound boolean phi (enough to cut revisits)
+			key := fmt.Sprintf("%d|", b.Index)
+			for _, bb := range f.Blocks {
+				for _, in := range bb.Instrs {
+					p, isPhi := in.(*ssa.Phi)
+					if !isPhi {
+						break
+					}
+					if _, bound := ne[p]; bound {
+						key += fmt.Sprintf("%s=%d;", p.Name(), eval(p, ne, 0))
+					}
+				}
+			}
+			if seen[key] {
+				return
+			}
+			seen[key] = true
+			for _, in := range b.Instrs {
+				if in == site {
+					switch eval(v, ne, 0) {
+					case triTrue:
+						out[a] |= 2
+					case triFalse:
+						out[a] |= 1
+					default:
+						out[a] |= 3
+					}
+					return
+				}
+			}
+			switch t := b.Instrs[len(b.Instrs)-1].(type) {
+			case *ssa.If:
+				switch eval(t.Cond, ne, 0) {
+				case triTrue:
+					walk(b.Succs[0], b, ne)
+				case triFalse:
+					walk(b.Succs[1], b, ne)
+				default:
+					walk(b.Succs[0], b, ne)
+					walk(b.Succs[1], b, ne)
+				}
+			case *ssa.Jump:
+				walk(b.Succs[0], b, ne)
+			}
+		}
+		if len(f.Blocks) > 0 {
+			walk(f.Blocks[0], nil, env{})
+		}
+	}
+	return out, okAll
+}
+
+// orderReach: under each ordering of (A, B), can control reach a return satisfying isTarget? Conditions that do not
+// depend on the ordering are explored both ways (so `found && a > b`, a hoisted boolean, or nested ifs are the same).
+func orderReach(f *ssa.Function, isA, isB func(ssa.Value) bool, isTarget func(*ssa.Return) bool) (reach [3]bool, ok bool) {
+	ok = true
+	for o := ordLT; o <= ordGT; o++ {
+		e := &ordEval{isA: isA, isB: isB, ord: o}
+		budget := 8000
+		type state struct{ b, pred *ssa.BasicBlock }
+		seen := map[state]bool{}
+		var walk func(b, pred *ssa.BasicBlock)
+		walk = func(b, pred *ssa.BasicBlock) {
+			if budget <= 0 {
+				ok = false
+				return
+			}
+			budget--
+			st := state{b, pred}
+			if seen[st] {
+				return
+			}
+			seen[st] = true
+			switch t := b.Instrs[len(b.Instrs)-1].(type) {
+			case *ssa.Return:
+				if isTarget(t) {
+					reach[o] = true
+				}
+			case *ssa.If:
+				switch e.eval(t.Cond, pred, 0) {
+				case triTrue:
+					walk(b.Succs[0], b)
+				case triFalse:
+					walk(b.Succs[1], b)
+				default:
+					walk(b.Succs[0], b)
+					walk(b.Succs[1], b)
+				}
+			case *ssa.Jump:
+				walk(b.Succs[0], b)
+			}
+		}
+		if len(f.Blocks) > 0 {
+			walk(f.Blocks[0], nil)
+		}
+	}
+	return
+}
